@@ -399,3 +399,68 @@ def const_value(f, idx):
     if 'vs' in n:
         return int(n['vs'])
     return None
+
+
+def origins(g, rd, f, idx, ctx, depth=0, seen=None):
+    """Follow an expression back through local variables (flow-sensitive reaching definitions),
+    parameter bindings of inlined calls, casts and transparent wrappers.  Returns a list of
+    (Func, node, ctx) source nodes (calls, members, literals, unbound parameters...)."""
+    if seen is None:
+        seen = set()
+    out = []
+    if idx is None or idx < 0 or depth > 12:
+        return out
+    n = f.nodes[idx]
+    key = (id(ctx), f.key, idx)
+    if key in seen:
+        return out
+    seen.add(key)
+    k = n['k']
+    if k == 'cast':
+        return origins(g, rd, f, n['e'], ctx, depth + 1, seen)
+    if k == 'call' and is_transparent_call(n) and n.get('args'):
+        return origins(g, rd, f, n['args'][0], ctx, depth + 1, seen)
+    if k == 'construct' and n.get('copymove') and len(n.get('args', [])) == 1:
+        return origins(g, rd, f, n['args'][0], ctx, depth + 1, seen)
+    if k == 'ref':
+        sk = n.get('sk')
+        if sk == 'param' and ctx is not None and ctx.call is not None and not ctx.lambda_of:
+            for pi, p in enumerate(f.params):
+                if p['id'] == n.get('id'):
+                    args = ctx.call.get('args', [])
+                    if pi < len(args) and args[pi] is not None and args[pi] >= 0:
+                        return origins(g, rd, ctx.caller, args[pi], ctx.parent, depth + 1, seen)
+            return [(f, n, ctx)]
+        if sk in ('local', 'static_local'):
+            pt = g.point_of.get((id(ctx), idx))
+            defs = []
+            if pt is not None:
+                defs = [g.points[d] for (v, d) in rd.get(pt.id, ()) if v == n.get('id')]
+            if not defs:
+                # captured variable of an enclosing function: look for its definitions anywhere in the graph
+                for p in g.points:
+                    if p.n is not None:
+                        for (vid, strong, vx) in defs_in_node(p.f, p.n):
+                            if vid == n.get('id'):
+                                defs.append(p)
+            res = []
+            for dp in defs:
+                for (vid, strong, vx) in defs_in_node(dp.f, dp.n):
+                    if vid == n.get('id'):
+                        if vx is None:
+                            continue
+                        if vx == dp.n['i'] and dp.n['k'] != 'declstmt':
+                            # compound assignment / increment / by-reference call: the node itself is a source
+                            res.append((dp.f, dp.n, dp.ctx))
+                        else:
+                            res.extend(origins(g, rd, dp.f, vx, dp.ctx, depth + 1, seen))
+            return res or [(f, n, ctx)]
+        return [(f, n, ctx)]
+    if k == 'binop' and n['op'] in ('+', '-') :
+        # x + const : follow the non-constant side too
+        l, r = f.nodes[n['lhs']], f.nodes[n['rhs']]
+        if 'v' in r and r['k'] == 'lit':
+            return [(f, n, ctx)] + origins(g, rd, f, n['lhs'], ctx, depth + 1, seen)
+        if 'v' in l and l['k'] == 'lit':
+            return [(f, n, ctx)] + origins(g, rd, f, n['rhs'], ctx, depth + 1, seen)
+    return [(f, n, ctx)]
